@@ -1,21 +1,42 @@
-(* OffsetPlan: the member-variable dataflow of ClipperOffset::ExecuteInternal / DoGroupOffset
-   (clipper.offset.cpp 448-533, 554-627) and of the Group constructor (133-155) as pure functions.
+(* OffsetPlan: the member-variable dataflow of ClipperOffset::ExecuteInternal / DoGroupOffset / CheckReverseOrientation
+   (clipper.offset.cpp) and of the Group constructor as pure functions.
 
-   The model mirrors the assignments exactly as they occur in the code, INCLUDING the places where member
-   state set for one path or group is still in effect for the next one:
-     * [end_type_] is overwritten for a two-point path of an EndType::Joined group (line 523) and is not
-       re-established for the following paths of the group;
-     * [delta_ = std::abs(delta_)] (line 454) for an EndType::Polygon group without a lowest path mutates the
-       member that every later group reads;
+   The model mirrors the assignments exactly as they occur in the code.  It mirrors the code AFTER the five repairs
+   prepared in /verif/triage/offset-*.patch (endtype-leak, delta-abs-leak, empty-group-orientation and the two
+   delta-callback repairs, which do not touch the members modelled here):
+     * [end_type_] is assigned for EVERY path of two or more points (Square/Round for a two-point path of an
+       EndType::Joined group, the group's end type otherwise);
+     * [delta_] is written by ExecuteInternal only; an EndType::Polygon group without a lowest path uses the local
+       |delta_|;
+     * CheckReverseOrientation skips EndType::Polygon groups without a lowest path;
      * the arc step constants (steps_per_rad_, step_sin_, step_cos_) are only recomputed by groups that have
-       a round join or round end.
+       a round join or round end (they are only read by such groups: see [round_group] in OffsetPlanProofs.v).
+
+   BEHAVIOUR OF THE CODE BEFORE THE REPAIRS (the statements DESIGN section 6 expected to be refuted, with the witnesses
+   that were replayed on the real code; demos under /verif/triage/demos/offset-*.cpp):
+     * C07_plan_local / C12_plan_order_independent, end type: line 523 wrote end_type_ only for a two-point Joined path
+       and nothing restored it.  Witness: one group  mkGroup [2; 3] JSquare EJoined false false, delta 10: the plan of
+       the old code gave the three-point path  pe_end = ESquare, pe_action = AOpen  although  end_of g 3 = EJoined
+       (real code: a two-point path and, 10000 units away, a three-point path: the latter is stroked with square caps,
+       area 6385 together vs 2330 + 5555.5 alone).
+     * C06_orientation_plan / C12_plan_order_independent, delta: line 454 executed  delta_ = std::abs(delta_)  on the
+       MEMBER for a Polygon group without a lowest path.  Witness:  [mkGroup [0] JSquare EPolygon false false;
+       mkGroup [4] JSquare EPolygon true false], delta -10: the old plan gave the square  pe_delta = +10  (own_delta
+       = -10), i.e. ltb (pe_delta e) 0 <> xorb (ltb delta 0) (g_reversed g)  (real code: area 14400 instead of 6400).
+     * orientation: CheckReverseOrientation took is_reversed = false from a first Polygon group without any vertex;
+       witness  [mkGroup [0] JMiter EPolygon false false; mkGroup [4] JMiter EPolygon true true], delta 10:
+       x_fill_negative = false although the only oriented group is reversed (real code: empty result).
+   What is still refuted of the repaired code (known finding offset.group-orientation.first-polygon-group-decides):
+   one fill rule for the whole call, taken from the first oriented Polygon group -- see
+   [fill_rule_order_dependent_refuted] in OffsetPlanProofs.v.
+
    Doubles are Coq primitive binary64 floats (negation, fabs and the comparisons used here are exact).
 
    Interface for other properties (C12 imports this file):
      group, mk_group (model of the Group constructor), ostate / init_state (the members that survive between
      groups and calls), do_group, plan_from / plan (one [pentry] per input path: which routine offsets it and
      with which effective member values), exec_mode / execute_plan (early return, fill rule, reversal flag),
-     end_of / own_delta (what a path would get if only its own group and delta mattered). *)
+     end_of / own_delta / own_action (what a path gets from its own group and the delta passed to Execute). *)
 From Coq Require Import ZArith List Bool Floats Lia.
 From Clip Require Import base.Geom base.FloatModel.
 Import ListNotations.
@@ -146,7 +167,14 @@ Record pentry := mkEntry {
 Definition fabs := PrimFloat.abs.
 Definition fneg := PrimFloat.opp.
 
-(* the path loop of DoGroupOffset (482-532).  [et] is the running end_type_ member. *)
+(* effective end type of a path of [len] >= 2 points: the assignment at the head of the dispatch
+   `if ((pathLen == 2) && (group.end_type == EndType::Joined)) end_type_ = ...; else end_type_ = group.end_type;` *)
+Definition end_of (g : group) (len : nat) : end_type :=
+  if Nat.eqb len 2 && et_eqb (g_end g) EJoined
+  then (if jt_eqb (g_join g) JRound then ERound else ESquare) else g_end g.
+
+(* the path loop of DoGroupOffset.  [et] is the running end_type_ member (a single-point path does not assign it, and
+   does not read it either; the observer of the harness sees the value left by the previous path). *)
 Fixpoint path_loop (gi : nat) (g : group) (gd : float) (mdelta : float) (sf : option float)
          (pi : nat) (lens : list nat) (et : end_type) : end_type * list pentry :=
   match lens with
@@ -159,23 +187,20 @@ Fixpoint path_loop (gi : nat) (g : group) (gd : float) (mdelta : float) (sf : op
         let '(et', es) := path_loop gi g gd mdelta sf (S pi) rest et in
         (et', mkEntry gi pi len gd (g_join g) et act sf mdelta :: es)
       else
-        (* if ((pathLen == 2) && (group.end_type == EndType::Joined)) end_type_ = ...  -- written to the member *)
-        let et1 := if Nat.eqb len 2 && et_eqb (g_end g) EJoined
-                   then (if jt_eqb (g_join g) JRound then ERound else ESquare) else et in
+        (* end_type_ is assigned for every such path -- written to the member *)
+        let et1 := end_of g len in
         let act := match et1 with EPolygon => APolygon | EJoined => AJoined | _ => AOpen end in
         let '(et', es) := path_loop gi g gd mdelta sf (S pi) rest et1 in
         (et', mkEntry gi pi len gd (g_join g) et1 act sf mdelta :: es)
   end.
 
-(* DoGroupOffset (448-533) *)
+(* DoGroupOffset *)
 Definition do_group (gi : nat) (g : group) (st : ostate) : ostate * list pentry :=
-  let mdelta := match g_end g with
-                | EPolygon => if negb (g_has_lowest g) then fabs (s_delta st) else s_delta st   (* line 454 *)
-                | _ => s_delta st
-                end in
+  let mdelta := s_delta st in                                   (* delta_ is only read here *)
   let gd := match g_end g with
-            | EPolygon => if g_reversed g then fneg mdelta else mdelta                          (* line 455 *)
-            | _ => fabs mdelta                                                                   (* line 458 *)
+            | EPolygon => let d := if g_has_lowest g then mdelta else fabs mdelta in     (* the local `delta` *)
+                          if g_reversed g then fneg d else d
+            | _ => fabs mdelta
             end in
   let abs_delta := fabs gd in
   let sf := if jt_eqb (g_join g) JRound || et_eqb (g_end g) ERound then Some abs_delta else s_steps_for st in
@@ -195,15 +220,15 @@ Definition insignificant (delta : float) : bool := PrimFloat.ltb (fabs delta) 0.
 
 (* the per-path plan of one Execute on an object whose members are [st0] *)
 Definition plan_from (st0 : ostate) (gs : list group) (delta : float) : ostate * list pentry :=
-  groups_loop 0 gs (mkState delta (s_gdelta st0) (s_join st0) (s_end st0) (s_steps_for st0)).   (* line 588 *)
+  groups_loop 0 gs (mkState delta (s_gdelta st0) (s_join st0) (s_end st0) (s_steps_for st0)).   (* `delta_ = delta;` in ExecuteInternal *)
 
 Definition plan (gs : list group) (delta : float) : list pentry := snd (plan_from init_state gs delta).
 
-(* CheckReverseOrientation (554-565) *)
+(* CheckReverseOrientation: the first EndType::Polygon group that has a lowest path decides *)
 Fixpoint check_reverse (gs : list group) : bool :=
   match gs with
   | [] => false
-  | g :: t => if et_eqb (g_end g) EPolygon then g_reversed g else check_reverse t
+  | g :: t => if et_eqb (g_end g) EPolygon && g_has_lowest g then g_reversed g else check_reverse t
   end.
 
 Inductive exec_mode :=
@@ -226,20 +251,21 @@ Definition execute_plan (reverse_solution : bool) (gs : list group) (delta : flo
     mkExec mode pr (xorb reverse_solution pr)
   end.
 
-(* ------------------------------------------------------------------ what locality would mean *)
+(* ------------------------------------------------------------------ what a path gets from its own group *)
 
-(* effective end type a path of length [len] gets when only its own group matters *)
-Definition end_of (g : group) (len : nat) : end_type :=
-  if Nat.eqb len 2 && et_eqb (g_end g) EJoined
-  then (if jt_eqb (g_join g) JRound then ERound else ESquare) else g_end g.
-
-(* group_delta_ when only the own group and the delta passed to Execute matter *)
+(* group_delta_ as a function of the own group and the delta passed to Execute *)
 Definition own_delta (g : group) (delta : float) : float :=
   match g_end g with
-  | EPolygon => let d := if negb (g_has_lowest g) then fabs delta else delta in
+  | EPolygon => let d := if g_has_lowest g then delta else fabs delta in
                 if g_reversed g then fneg d else d
   | _ => fabs delta
   end.
+
+(* the routine that offsets a path of [len] points of group [g] *)
+Definition own_action (g : group) (delta : float) (len : nat) : action :=
+  if Nat.eqb len 1 then
+    (if PrimFloat.ltb (own_delta g delta) 1%float then ASkip else APoint (jt_eqb (g_join g) JRound))
+  else match end_of g len with EPolygon => APolygon | EJoined => AJoined | _ => AOpen end.
 
 Definition find_entry (es : list pentry) (gi pi : nat) : option pentry :=
   find (fun e => Nat.eqb (pe_group e) gi && Nat.eqb (pe_path e) pi) es.
@@ -249,12 +275,16 @@ Definition all_open (gs : list group) : bool := forallb (fun g => negb (et_eqb (
 
 (* ------------------------------------------------------------------ sanity *)
 Example plan_ex1 :
-  map pe_end (plan [mkGroup [2%nat; 3%nat] JSquare EJoined false false] 10%float) = [ESquare; ESquare].
+  map pe_end (plan [mkGroup [2%nat; 3%nat] JSquare EJoined false false] 10%float) = [ESquare; EJoined].
 Proof. reflexivity. Qed.
 
 Example plan_ex2 :
   map pe_delta (plan [mkGroup [0%nat] JSquare EPolygon false false; mkGroup [4%nat] JSquare EPolygon true false] (-10)%float)
-  = [10%float; 10%float].
+  = [10%float; (-10)%float].
+Proof. reflexivity. Qed.
+
+Example plan_ex3 :
+  check_reverse [mkGroup [0%nat] JMiter EPolygon false false; mkGroup [4%nat] JMiter EPolygon true true] = true.
 Proof. reflexivity. Qed.
 
 Example mk_group_ex :
